@@ -55,7 +55,26 @@ type c13In struct {
 // c13DropsSession: failures after which NewSession returns no Session object at all (the early failures: first
 // features not read, TLS not negotiated): the client forgets its stream-management state with it, so the next
 // successful attempt cannot resume and binds afresh.
-func c13DropsSession(f string) bool { return f == "cutfeatures" || f == "cutproceed" }
+func c13DropsSession(f string) bool { return f == "cutfeatures" || f == "cutproceed" || c13HandshakeCut(f) != "" }
+
+// c13HandshakeCut: TLS only: the connection ends in the middle of the handshake that follows <proceed/> (srv.go
+// connScript.TLSCut): before the server's answer to the ClientHello, inside the header of its first record, inside
+// that record's payload, right after that record. A cut, not a refusal: transient. "" for every other kind.
+func c13HandshakeCut(f string) string {
+	switch f {
+	case "tlscutnone":
+		return "none"
+	case "tlscuthdr":
+		return "header"
+	case "tlscutpayload":
+		return "payload"
+	case "tlscutboundary":
+		return "boundary"
+	}
+	return ""
+}
+
+var c13HandshakeCuts = []string{"tlscutnone", "tlscuthdr", "tlscutpayload", "tlscutboundary"}
 
 // c13Resumes: whether the successful attempt of a round resumes the stream-managed session.
 func c13Resumes(in c13In, rd c13Round) bool {
@@ -89,7 +108,11 @@ func c13TLSRefusal(f string) string {
 }
 
 // c13Permanent: failures that must end the retry loop (rejected credentials, TLS policy failure).
-func c13Permanent(f string) bool { return f == "permanent" || c13TLSRefusal(f) != "" }
+// permanentdrop / permanentfin: the SASL <failure/>, and the server hangs up at once (reset / orderly) instead of
+// waiting for the client's closing tag: closing the failed connection then fails as well on the client's side
+func c13Permanent(f string) bool {
+	return f == "permanent" || f == "permanentdrop" || f == "permanentfin" || c13TLSRefusal(f) != ""
+}
 
 // c13Pins12: the application allows TLS 1.2 at most. Needed for the refusals that come from the server: a TLS 1.3
 // server that wants a client certificate only says so after the client's handshake has completed.
@@ -118,7 +141,9 @@ func c13RefusalLogged(kind, serverErr string) bool {
 
 var c13Refusals = []string{"tlsversion", "tlsclientcert", "tlswronghost", "tlsuntrusted", "tlsexpired"}
 
-func c13IsCut(f string) bool { return f == "transientdrop" || f == "cutfeatures" || f == "cutproceed" }
+func c13IsCut(f string) bool {
+	return f == "transientdrop" || f == "cutfeatures" || f == "cutproceed" || f == "permanentdrop" || f == "permanentfin" || c13HandshakeCut(f) != ""
+}
 
 type c13 struct{}
 
@@ -129,7 +154,7 @@ func (c13) RunFn() string { return "run_C13" }
 func (c13) Workers() int  { return 32 }
 func (c13) Journal() bool { return true }
 func (c13) Rule() string {
-	return "fault sequences of up to 4 rounds on successive connections of a real StreamManager+Client: abrupt drop, graceful </stream:stream> or <stream:error><system-shutdown/></stream:error></stream:stream> by the server, listener down for 0-120 ms (refused attempts), keepalive interval the default or 3-10 ms (shorter than the outage), 0-2 negotiation failures (transient: unexpected reply to <auth/>, with a clean stream close or with the connection cut, or the connection cut after the server's stream header / after the client's <starttls/>; permanent: SASL <failure/>, or - TLS mandatory - the handshake after <proceed/> refused by the server with an alert (TLS 1.3 only against an application pinning TLS 1.2; client certificate demanded) or by the client (certificate for another name, from an unknown authority, expired)), or a PostResumeHook of the application that fails after a successful negotiation, then a successful attempt on which the server grants or refuses a resumption (stream management) or that binds afresh; on every established session a stanza from the server must reach a handler and a stanza sent afterwards must arrive on that session's connection; the stream error also with <conflict/>; finally Stop, or Stop in the middle of an outage (then the server accepts again and must see nobody), or Stop during the first negotiation; also first-connection failures; cleartext or mandatory STARTTLS; TCP or WebSocket transport; distinct = fault sequence; non-trivial = at least one loss followed by a new session"
+	return "fault sequences of up to 4 rounds on successive connections of a real StreamManager+Client: abrupt drop, graceful </stream:stream> or <stream:error><system-shutdown/></stream:error></stream:stream> by the server, listener down for 0-120 ms (refused attempts), keepalive interval the default or 3-10 ms (shorter than the outage), 0-2 negotiation failures (transient: unexpected reply to <auth/>, with a clean stream close or with the connection cut, or the connection cut after the server's stream header / after the client's <starttls/>; or the connection ending inside the TLS handshake: before the server's first record, inside its header, inside its payload, right after it; permanent: SASL <failure/> with the server waiting for the client's closing tag or hanging up at once (reset / orderly), or - TLS mandatory - the handshake after <proceed/> refused by the server with an alert (TLS 1.3 only against an application pinning TLS 1.2; client certificate demanded) or by the client (certificate for another name, from an unknown authority, expired)), or a PostResumeHook of the application that fails after a successful negotiation, then a successful attempt on which the server grants or refuses a resumption (stream management) or that binds afresh; on every established session a stanza from the server must reach a handler and a stanza sent afterwards must arrive on that session's connection; the stream error also with <conflict/>; finally Stop, or Stop in the middle of an outage (then the server accepts again and must see nobody), or Stop during the first negotiation; also first-connection failures; cleartext or mandatory STARTTLS; TCP or WebSocket transport; distinct = fault sequence; non-trivial = at least one loss followed by a new session"
 }
 func (c13) Decode(raw json.RawMessage) (interface{}, error) {
 	var in c13In
@@ -173,6 +198,18 @@ func (c13) Gen(r *rand.Rand, tier string) []interface{} {
 		c13In{TLS: true, SM: true, Rounds: []c13Round{{Term: "drop", Resume: true}, {Term: "serr", Fails: []string{"transient", "tlsuntrusted"}}}},
 		c13In{TLS: true, Rounds: []c13Round{{Term: "drop", RefuseMs: 60, Fails: []string{"cutproceed", "tlswronghost"}}}},
 		c13In{TLS: true, KaMs: 5, Rounds: []c13Round{{Term: "drop", Fails: []string{"tlsexpired"}}}},
+		// TLS mandatory, the connection of a reconnection attempt ends in the middle of the handshake (at every class
+		// of record offset): a cut, not a refusal
+		c13In{TLS: true, Rounds: []c13Round{{Term: "drop", Fails: []string{"tlscutnone"}}}},
+		c13In{TLS: true, Rounds: []c13Round{{Term: "close", Fails: []string{"tlscuthdr"}}}},
+		c13In{TLS: true, SM: true, Rounds: []c13Round{{Term: "drop", Fails: []string{"tlscutpayload"}, Resume: true}}},
+		c13In{TLS: true, Rounds: []c13Round{{Term: "serr", Fails: []string{"tlscutboundary", "tlscuthdr"}}}},
+		// rejected credentials, and the server hangs up first (over TLS the client's close_notify cannot be written
+		// any more: closing the failed connection fails too) -- or answers the closing tag first
+		c13In{TLS: true, Rounds: []c13Round{{Term: "drop", Fails: []string{"permanentdrop"}}}},
+		c13In{TLS: true, Rounds: []c13Round{{Term: "close", Fails: []string{"transient", "permanentfin"}}}},
+		c13In{TLS: true, Rounds: []c13Round{{Term: "drop", Fails: []string{"permanent"}}}},
+		c13In{Rounds: []c13Round{{Term: "drop", Fails: []string{"permanentfin"}}}},
 		// Stop while the manager is reconnecting (listener down, retry loop in its back-off); then the server is back
 		c13In{Rounds: []c13Round{{Term: "drop", RefuseMs: 80}}, StopOut: 1},
 		c13In{SM: true, Rounds: []c13Round{{Term: "close", Resume: true}, {Term: "serr", RefuseMs: 100, Resume: true}}, StopOut: 2},
@@ -222,7 +259,10 @@ func (c13) Gen(r *rand.Rand, tier string) []interface{} {
 			}
 			for f := r.Intn(3); f > 0; f-- {
 				if r.Intn(6) == 0 {
-					rd.Fails = append(rd.Fails, "permanent")
+					rd.Fails = append(rd.Fails, []string{"permanent", "permanent", "permanentdrop", "permanentfin"}[r.Intn(4)])
+					if in.WS {
+						rd.Fails[len(rd.Fails)-1] = "permanent"
+					}
 					break
 				}
 				if in.TLS && r.Intn(4) == 0 {
@@ -238,6 +278,8 @@ func (c13) Gen(r *rand.Rand, tier string) []interface{} {
 					rd.Fails = append(rd.Fails, "cutfeatures")
 				case x == 2 && in.TLS:
 					rd.Fails = append(rd.Fails, "cutproceed")
+				case x == 4 && in.TLS:
+					rd.Fails = append(rd.Fails, c13HandshakeCuts[r.Intn(len(c13HandshakeCuts))])
 				case x == 3 && !in.SM:
 					rd.Fails = append(rd.Fails, "hookfail")
 				default:
@@ -418,6 +460,15 @@ func c13Scripts(in c13In) (scripts []connScript, good map[int]bool, resumed map[
 		case "cutproceed":
 			// STARTTLS is offered and required; the connection is cut when the client asks for it
 			return connScript{Groups: [][]sItem{{hdrItem(), {T: "features", TLS: 2}}, {{T: "wait", N: 3}, {T: "eof"}}}}
+		}
+		switch kind {
+		case "permanentdrop":
+			return connScript{Groups: append(pre(), []sItem{{T: "saslfailure"}, {T: "wait", N: 3}, {T: "eof"}})}
+		case "permanentfin":
+			return connScript{Groups: append(pre(), []sItem{{T: "saslfailure"}, {T: "wait", N: 3}, {T: "fin"}})}
+		}
+		if cut := c13HandshakeCut(kind); cut != "" {
+			return connScript{Groups: [][]sItem{{hdrItem(), {T: "features", TLS: 2}}, {{T: "proceed"}}}, TLSCut: cut}
 		}
 		if cert := c13TLSRefusal(kind); cert != "" {
 			// <proceed/>, then a handshake that one side refuses
@@ -954,6 +1005,7 @@ func (c13) Run(inp interface{}) Sx {
 	connIdx := 0 // index of the server connection carrying the current session
 	sessions := 0
 	dead := false
+	cutAt := map[int]string{} // connections on which the fault sequence has the server go away in mid-handshake
 	refusedAt := map[int]string{} // connections on which the fault sequence has the TLS handshake refused, and how
 	settle := time.Duration(0)
 	switch in.First {
@@ -1007,6 +1059,9 @@ func (c13) Run(inp interface{}) Sx {
 					// a cut connection keeps Transport.Close waiting for ConnectTimeout (1 s): give a
 					// second, concurrent retry loop (if the code starts one) the time to show itself
 					settle = 1600 * time.Millisecond
+				}
+				if c13HandshakeCut(f) != "" {
+					cutAt[connIdx] = f
 				}
 				if c13TLSRefusal(f) != "" {
 					// the connection of a refused handshake is gone when the client closes its stream: Transport.Close
@@ -1092,6 +1147,16 @@ func (c13) Run(inp interface{}) Sx {
 	}
 	time.Sleep(5 * time.Millisecond)
 	srvSessions, srvResumed, conns := srv.result()
+	if t, ok := srv.(*c13TCP); ok {
+		// a scripted cut inside the handshake must have taken place as scripted (the server's TLS layer was stopped
+		// by it), not as something else (e.g. a handshake the client abandoned first)
+		logs := t.srv.snapshot()
+		for i, kind := range cutAt {
+			if i < len(logs) && !(logs[i].TLS == "handshake-error" && strings.Contains(logs[i].TLSErr, "scripted cut")) {
+				return L(SBytes("tls-refusal-not-realised"), Zi(i), SBytes(kind), SBytes(logs[i].TLS+": "+logs[i].TLSErr))
+			}
+		}
+	}
 	if t, ok := srv.(*c13TCP); ok && dead {
 		// The scenario is only what it claims to be if the handshake was really REFUSED on that connection, in the
 		// way scripted: the server's side of the handshake reports its own refusal or the client's alert. Anything
